@@ -62,6 +62,7 @@ Apply(f, x) ==
       [] f.n = "dup"     -> TupV(<<x, x>>)
       [] f.n = "fst"     -> V(x)[1]
       [] f.n = "snd"     -> V(x)[2]
+      [] f.n = "fstmodc" -> IntV(V(V(x)[1]) % f.c)
       [] f.n = "noneIf"  -> IF IsIntEq(x, f.c) THEN None ELSE x
       [] f.n = "failIf"  -> IF IsIntEq(x, f.c) THEN ErrV(f.c) ELSE x
       [] f.n = "failMod" -> IF IsInt(x) /\ V(x) % 3 = f.c THEN ErrV(V(x)) ELSE x
